@@ -8,7 +8,7 @@
 From Coq Require Import List ZArith Bool.
 From Coq Require Import PrimFloat.
 Import ListNotations.
-From DD Require Import Base.Value Dist.DistModel Dist.DistProofs.
+From DD Require Import Base.Value Diff.Tree Diff.DiffModel Dist.DistModel Dist.DistProofs Dist.DistDiffModel Dist.DistDiffProofs.
 
 (** ** number / date / time distance: range *)
 
@@ -148,3 +148,29 @@ Theorem C19_disjoint_positions_carve : forall t P,
   pairwise_incomparable P = true -> sumcnt t P <= count t.
 Proof. exact carve_all. Qed.
 Print Assumptions C19_disjoint_positions_carve.
+
+(** ** the range theorem about the diff itself (positional mode)
+
+    [diff] is the model of DeepDiff's ordered comparison (Diff/DiffModel.v, tied to
+    the code by C03/C04's correspondence and by C19's own on the distance);
+    [deep_distance_of_diff] feeds the delta view of its levels to rough_distance.
+    No validity hypothesis on the delta is left: only the type-change guard. *)
+
+(* the values reported by the diff are disjoint parts of the inputs *)
+Theorem C19_diff_reports_disjoint_parts :
+  forall hatom udiff ops skip excl c,
+    zip c = true -> ignore_private c = true ->
+    forall t1 t2 p1 p2, wf t1 = true -> wf t2 = true ->
+      w1 (fst (diff hatom udiff ops skip excl c t1 t2 p1 p2)) <= count t1 /\
+      w2 (fst (diff hatom udiff ops skip excl c t1 t2 p1 p2)) <= count t2.
+Proof. exact diff_weights. Qed.
+Print Assumptions C19_diff_reports_disjoint_parts.
+
+Theorem C19_deep_distance_range_positional :
+  forall hatom udiff ops skip excl c incl cutoff t1 t2 n m,
+    zip c = true -> ignore_private c = true -> wf t1 = true -> wf t2 = true ->
+    tcs_ok incl (fst (diff hatom udiff ops skip excl c t1 t2 [] [])) = true ->
+    deep_distance_of_diff hatom udiff ops skip excl c incl cutoff t1 t2 = RFrac n m ->
+    0 < n /\ n <= m.
+Proof. exact deep_distance_positional_range. Qed.
+Print Assumptions C19_deep_distance_range_positional.
